@@ -678,3 +678,40 @@ def names(idx):
     _NAMES.clear()
     _NAMES[key] = n
     return n
+
+
+def seed_aliases(idx, cls, store, selfkey="self"):
+    """a model that fixes the value of a property (`self.collect_when_not_matched`) fixes what the property merely hands on:
+    when the getter is `return self.<path>` the same value is stored under that path too (and so on along the delegation), so that
+    code reading the underlying attribute directly sees the model's value"""
+    out = dict(store)
+    for k, v in store.items():
+        if not k.startswith(selfkey + ".") or k.count(".") != 1:
+            continue
+        c, key = cls, k
+        for _ in range(4):
+            attr = key.rsplit(".", 1)[1]
+            pr = None
+            for ci in idx.mro(c):
+                if attr in ci.properties and "get" in ci.properties[attr]:
+                    pr = ci.properties[attr]["get"]
+                    break
+            if pr is None:
+                break
+            body = [s for s in pr.node.body if not (isinstance(s, ast.Expr) and isinstance(s.value, ast.Constant))]
+            if len(body) != 1 or not isinstance(body[0], ast.Return) or body[0].value is None:
+                break
+            d = dotted(body[0].value)
+            if not d or not d.startswith("self.") or d == "self." + attr:
+                break
+            base = key.rsplit(".", 1)[0]
+            key = base + d[4:]
+            out.setdefault(key, v)
+            # class of the object holding the last attribute
+            t = c
+            for a in d.split(".")[1:-1]:
+                t = idx.attr_type(t, a) if t else None
+            if not t:
+                break
+            c = t
+    return out
